@@ -303,6 +303,12 @@ def run(ctx):
             cases = corpus(fam, ctx.quick)
             if fam.kind != 'flat':
                 cases = cases + [('toolong:' + c[0], dict(c[1], _small=True), c[2]) for c in cases[:3] if len(c[2]) > 64]
+            if fam.kind == 'xml':
+                # the same structural mutants framed the way real SOAP clients frame them: a charset on the transport and an
+                # XML declaration naming an encoding in front of the (mutilated) document
+                decl = b"<?xml version='1.0' encoding='utf-8'?>"
+                cases = cases + [('decl:' + c[0], dict(c[1], _decl=True), decl + c[2]) for c in cases
+                                 if not c[0].startswith(('leaf ', 'rand', 'toolong')) or c[0].startswith('rand1')]
             for label, envx, body in cases:
                 for tr in (('wsgi',) if fam.kind == 'flat' or envx.get('_small') else ('wsgi', 'base')):
                     del RAN[:]
@@ -319,12 +325,14 @@ def run(ctx):
                                    'CONTENT_LENGTH': str(len(body))}
                             env.update(envx)
                             small = env.pop('_small', False)
+                            if env.pop('_decl', False):
+                                env['CONTENT_TYPE'] = (fam.ctype or 'text/xml') + '; charset=utf-8'
                             st = []
                             o = b''.join((wsmall if small else w)(env, lambda s, h, e=None: st.append(s)))
                             return int(st[0].split()[0]), o, None
                         c = MethodContext(sb, MethodContext.SERVER)
                         c.in_string = [body]
-                        p = sb.generate_contexts(c)[0]
+                        p = sb.generate_contexts(c, 'utf-8' if envx.get('_decl') else None)[0]
                         if not p.in_error: sb.get_in_object(p)
                         if not p.in_error: sb.get_out_object(p)
                         sb.get_out_string(p)
